@@ -711,6 +711,29 @@ mod verif_kani {
         assert!(sa.sun_path[sa.sun_path.len() - 1] == 0, "kani.ffi.sun_path_last_byte_zero");
     }
 
+    // make_socket_lingering: exactly one setsockopt(fd, SOL_SOCKET, SO_LINGER, &linger{on, 30 s}, sizeof linger); Err iff it fails (C08)
+    static mut SSO_CALLS: u32 = 0;
+    static mut SSO_OK_ARGS: bool = false;
+    static mut SSO_RET: c_int = 0;
+    unsafe fn k_setsockopt(fd: c_int, level: c_int, name: c_int, value: *const c_void, len: socklen_t) -> c_int {
+        SSO_CALLS += 1;
+        let l = value as *const linger;
+        SSO_OK_ARGS = fd == 7 && level == libc::SOL_SOCKET && name == libc::SO_LINGER
+            && len as usize == mem::size_of::<linger>() && (*l).l_onoff != 0 && (*l).l_linger > 0;
+        SSO_RET
+    }
+    #[kani::proof]
+    #[kani::stub(libc::setsockopt, k_setsockopt)]
+    fn ffi_make_socket_lingering() {
+        unsafe { SSO_RET = kani::any(); }
+        let r = make_socket_lingering(7);
+        assert!(unsafe { SSO_CALLS } == 1, "kani.ffi.lingering_one_setsockopt");
+        assert!(unsafe { SSO_OK_ARGS }, "kani.ffi.lingering_so_linger_enabled_with_a_positive_timeout_on_this_socket");
+        assert!(r.is_ok() == (unsafe { SSO_RET } >= 0), "kani.ffi.lingering_err_iff_setsockopt_failed");
+        kani::cover!(r.is_ok(), "cover.lingering_ok");
+        kani::cover!(r.is_err(), "cover.lingering_err");
+    }
+
     // ======================= K4b: error conversions over all errno values (C03, C10, C09) =======================
     fn any_unix_error() -> UnixError {
         if kani::any() {
